@@ -1,3 +1,4 @@
+import AnonModel.Model.WirePv
 /-!
 # M14d (the msgpack layer) — `utils/msg_pack.rs`: `rmp_serde::to_vec_named` / `rmp_serde::from_slice`
 
@@ -178,6 +179,39 @@ def structMV (fields : List (List Nat × MV)) : MV := .map (members fields)
 def field (k : List Nat) : List MV → Option MV
   | .str k' :: v :: rest => if k' = k then some v else field k rest
   | _ :: _ :: rest => field k rest
+  | _ => none
+
+/-! ## the typed layer, shallow: which payload structure a decoded map can be read as -/
+
+/-- an ASCII member name as bytes -/
+def key (s : String) : List Nat := s.toList.map Char.toNat
+
+/-- every name of the list is a member -/
+def hasKeys (ks : List (List Nat)) (kvs : List MV) : Bool := ks.all (fun k => (field k kvs).isSome)
+
+/-- the payload structure whose required members the map has (`CredentialSignatureProofValue`,
+`CredentialPresentationProofValue`, `PresentationProofValue`; optional members and unknown ones do not matter: the derive
+ignores unknown members and defaults `Option`s). That each required member itself reads as its CL-crate type is given. -/
+def payloadKind : MV → Option Nat
+  | .map kvs =>
+    if hasKeys [key "schema_id", key "cred_def_id", key "signature", key "signature_correctness_proof"] kvs then some 1
+    else if hasKeys [key "schema_id", key "cred_def_id", key "sub_proof"] kvs then some 2
+    else if hasKeys [key "aggregated"] kvs then some 3
+    else none
+  | _ => none
+
+/-- what the hand-written visitor of the tagged sequence can tell apart in one decoded element (`WirePv.Item`) -/
+def itemOf : MV → WirePv.Item
+  | .int n => if -(2147483648 : Int) ≤ n ∧ n ≤ 2147483647 then .int n else .other
+  | v => match payloadKind v with
+    | some k => .payload k
+    | none => .other
+
+/-- `DataIntegrityProofValue::deserialize` on the bytes of a proof value: `deserialize_seq` needs a sequence, then the visitor
+of `WirePv` decides on the elements -/
+def readTyped (bs : List Nat) : Option Nat :=
+  match decode bs with
+  | some (.arr xs) => WirePv.de (xs.map itemOf)
   | _ => none
 
 /-- the value read from the bytes of a proof value -/
